@@ -166,6 +166,14 @@ def _throws(f):
     return [n for n in walk(f["body"]) if n.get("k") == "CXXThrowExpr" and n.get("tt")]
 
 
+
+def _split_guard(cond, pol):
+    """(A && B) held true -> A true, B true;  (A || B) held false -> A false, B false"""
+    c = strip_all(cond)
+    if c is not None and c.get("k") == "BinaryOperator" and ((c.get("op") == "&&" and pol) or (c.get("op") == "||" and not pol)):
+        return _split_guard(c["c"][0], pol) + _split_guard(c["c"][1], pol)
+    return [(cond, pol)]
+
 def run(F, R, tier, M=None):
     M = M or ThrowModel(F)
     R.explanation = (
@@ -197,6 +205,7 @@ def run(F, R, tier, M=None):
             if ty not in ("gm2calc::EInvalidInput", "gm2calc::EPhysicalProblem"):
                 continue
             gs = [g for g in S.guards(t) if g[0] != "switch"]
+            gs = [x for g in gs for x in _split_guard(g[0], g[1])]
             force_g = None
             force_txt = None
             defect = []
@@ -262,6 +271,7 @@ def run(F, R, tier, M=None):
         Rr = Renderer(f)
         for t in ths:
             gs = [g for g in S.guards(t) if g[0] != "switch"]
+            gs = [x for g in gs for x in _split_guard(g[0], g[1])]
             conds = []
             for cond, pol in gs:
                 txt = Rr.r(cond)
